@@ -427,9 +427,10 @@ func (b *Broker) RegisterPipeline(def Pipeline, opt ...Option) error {
 		registrationPolicy: opts.withPipelineRegistrationPolicy,
 	}
 
-	// Store the pipeline and then update the reference count of the nodes in that pipeline.
+	// Store the pipeline and then update the reference count of the nodes: a
+	// pipeline holds one reference to each of its nodes, however often it lists it.
 	g.roots.Store(def.PipelineID, pipelineReg)
-	for _, id := range def.NodeIDs {
+	for id := range root.flatten() {
 		nodeUsage, ok := b.nodes[id]
 		// We can be optimistic about this as we would have already errored above.
 		if ok {
